@@ -238,10 +238,72 @@ func (rg *rig) queuedChecksCase(failFast bool, id string, rng *rand.Rand) {
 	}
 }
 
+// hookCancelCase: the client cancels while the proxy branch of the read is
+// parked at a yield point of cache/disk (after the backend's bytes were copied
+// / just before the commit). Whatever the handler then does, the key must
+// read correctly afterwards and nothing may stay reserved or lie around.
+func (rg *rig) hookCancelCase(point string, p *op, id string, rng *rand.Rand) {
+	r := rg.w.r
+	h := rg.w.hooks
+	if h == nil {
+		return
+	}
+	cs := caseSpec{e: &entry{name: "hook-cancel"}, op: p, kind: p.kind}
+	o := rg.makeObject(rng, cs, id)
+	det := &readDetail{Rig: rg.name, Case: id, Op: p.name, Plan: "healthy backend; client cancels at " + point, Object: o.String(), Expect: "key reads correctly afterwards; nothing left behind"}
+	rg.be.put(o)
+	rg.noteCase(p.name + "/cancel-at-" + point)
+	key := cache.LookupKey(o.kind, o.hash)
+	gate := h.Gate(point, key, 1)
+	ctx, cancel := context.WithCancel(context.Background())
+	done := make(chan outcome, 1)
+	go func() { done <- p.run(ctx, rg, rg.front, o) }()
+	arrived := gate.WaitArrived(reachBackendMax)
+	cancel()
+	var out outcome
+	select {
+	case out = <-done:
+	case <-time.After(clientReturnMax):
+		h.Ungate(point, key)
+		r.Inconclusive(fmt.Sprintf("%s: client call %s did not return within %v of its cancellation", rg.name, p.name, clientReturnMax))
+		return
+	}
+	h.Ungate(point, key)
+	if !arrived {
+		r.Count("hook-cancel.not-reached." + point)
+		return
+	}
+	det.History = append(det.History, fmt.Sprintf("handler parked at %s; client cancelled -> %s; handler released", point, out))
+	r.Eval()
+	r.Count(fmt.Sprintf("hook-cancel.%s/%s.%s", rg.family, point, out.class))
+	r.Distinct(rg.name, p.name, "cancel-at-hook", point)
+	if out.class == "hit" {
+		rg.judge(p, o, "client-cancel", "cancelled-read", out, expAny, det)
+	}
+	if rg.front.Settle(60*time.Second) == "busy" {
+		r.Violation(rg.key(p.name, "client-cancel", "handler-still-running"),
+			fmt.Sprintf("%s: the handler of a cancelled %s is still running 60 s after it was released from %s", rg.name, p.name, point), det)
+		return
+	}
+	rctx, rcancel := context.WithTimeout(context.Background(), 120*time.Second)
+	defer rcancel()
+	out2 := p.run(rctx, rg, rg.front, o)
+	det.History = append(det.History, fmt.Sprintf("read again: %s -> %s", p.name, out2))
+	r.Eval()
+	rg.judge(p, o, "client-cancel", "read-after-cancel", out2, expHit, det)
+	rg.checkPanics(p.name, "client-cancel", det)
+}
+
 func (rg *rig) runCancelCases(specs []stallSpec, queued int, half int) {
 	rng := rg.w.r.Rng(fmt.Sprintf("cancel/%s/%d", rg.name, half))
 	for i, ss := range specs {
 		rg.stallCase(ss, fmt.Sprintf("%s-h%d-s%d", rg.name, half, i), rng)
+	}
+	if len(specs) > 0 {
+		hops := []*op{opBSRead, opHTTPGetCAS, opHTTPGetAC, opBSReadZstd}
+		for i, point := range []string{"get.proxy.afterCopy", "get.proxy.beforeCommit"} {
+			rg.hookCancelCase(point, hops[(i+half)%len(hops)], fmt.Sprintf("%s-h%d-hk%d", rg.name, half, i), rng)
+		}
 	}
 	for i := 0; i < queued; i++ {
 		rg.queuedChecksCase(i%2 == 1, fmt.Sprintf("%s-h%d-q%d", rg.name, half, i), rng)
